@@ -128,7 +128,12 @@ func (r *reflector) ReflectTo(src px.Value, dest reflect.Value) {
 		case px.Reflected:
 			if dt.Kind() == reflect.Interface && dt.Name() == `` {
 				// Destination is an interface{}, derive type from source
-				dest.Set(src.Reflect(r.c))
+				rv := src.Reflect(r.c)
+				if !rv.IsValid() {
+					// undef has no reflected value, the interface becomes nil
+					rv = reflect.Zero(dt)
+				}
+				dest.Set(rv)
 			} else {
 				src.ReflectTo(r.c, dest)
 			}
